@@ -50,7 +50,8 @@ func ParseYamlInDir(path string, namespaceName string) (*Namespace, error) {
 				return nil
 			})
 		if err != nil {
-			log.Error().Err(err).Msg("")
+			// Not every model file could be listed
+			return nil, err
 		}
 
 		sort.Slice(paths, func(i, j int) bool { return paths[i] < paths[j] })
